@@ -469,6 +469,12 @@ def expected_for_error(err, opname):
     return "raise" if ERROR_CLASSES[err][3] else "FAILED"
 
 
+def _fire_and_forget_only(begin):
+    """The call carried nothing but records no caller waits for (context START, step / wait_for_condition START)."""
+    kinds = (begin or {}).get("kinds")
+    return bool(kinds) and all(k[1] == "START" and k[0] in ("CONTEXT", "STEP") for k in kinds)
+
+
 def _failed_after_user_code_ended(ix, inv, f):
     """The failing call was still flushing fire-and-forget records (context / at-least-once step START) when the handler had
     already returned or suspended: every record anything depended on had been awaited, no durable call can observe the
@@ -508,6 +514,12 @@ def check_c06(ix, amo_positions=()):
                 continue
             if _failed_after_user_code_ended(ix, inv, f):
                 w.hit("c06-failure-after-user-code-ended")
+                continue
+            if _fire_and_forget_only(begin) and not later:
+                # nobody waited for any record of the failed call and nobody issued a checkpoint afterwards: the SDK abandons
+                # such records by design (stop_checkpointing), the next invocation sends them again. That a checkpoint
+                # issued after the failure is refused is judged below (checkpoint-accepted-after-failure).
+                w.hit("c06-unobserved-failure-of-fire-and-forget-batch")
                 continue
             out.append(V("C06", "success-after-failure", f"invocation {inv} returned {oc} although API call {f['call']} ({opname}) failed "
                          f"with {f['err']}", seq=f["s"]))
@@ -1025,6 +1037,13 @@ def check_c13(ix, cfg):
             upto = min(later_ws) if later_ws else float("inf")
             nxt = [a for a in ix.applied_for(oid) if ws["s"] < a["s"] < upto and a["i"] == ws["i"] and not a.get("rejected")
                    and a["action"] in ("RETRY", "FAIL", "SUCCEED")]
+            if ws["cont"]:
+                # the call parks the poll (suspends) only after the continue decision has been recorded
+                park = next((d for d in ix.deliveries.get(pos, []) if d["inv"] == ws["i"] and d["t"] == ws["t"] and d["s1"] > ws["s"]
+                             and d["s1"] < upto and d["how"] == "abort" and d["cls"] in SUSPEND), None)
+                if park is not None and not any(a["action"] == "RETRY" and a["s"] < park["s1"] for a in nxt):
+                    out.append(V("C13", "continue-not-recorded", f"{pos}: poll {ws['attempt']} decided to continue and the call suspended "
+                                 f"(seq {park['s1']}) but no RETRY record had been accepted", pos=pos, seq=park["s1"]))
             if not nxt:
                 continue
             a = nxt[0]
@@ -1482,7 +1501,9 @@ def check_c18(ix, cfg):
             opname = b["op"] if b else "checkpoint"
             exp = expected_for_error(f["err"], opname)
             if oc in ("SUCCEEDED", "PENDING"):
-                if not (b and b["n"] == 0 and opname == "checkpoint") and not _failed_after_user_code_ended(ix, inv, f):
+                later_ = [x for x in ix.kinds["api-begin"] if x["i"] == inv and x["s"] > f["s"]]
+                if not (b and b["n"] == 0 and opname == "checkpoint") and not _failed_after_user_code_ended(ix, inv, f) \
+                        and not (_fire_and_forget_only(b) and not later_):
                     out.append(V("C18", "wrong-classification", f"invocation {inv} returned {oc} although API call {f['call']} ({opname}) "
                                  f"failed with {f['err']} (expected {exp})", seq=f["s"]))
             elif oc == "FAILED" and exp == "raise" and not _failed_on_its_own(ix, inv, info):
